@@ -56,6 +56,22 @@ def native_check(kind, n, env=None, seed=0):
                 fails.append(("pure: trivial region purity != (tr rho)^2", A))
         if len(fails) > 4:
             break
+    # batches of 3 and 4 distinct rows: row i must be Re[w(s'_i, s_i) w(s'_(i-1), s_(i-1))] with the cyclic partner i-1
+    from qucumber.observables.entanglement import swap
+    for Bn in (3, 4):
+        if Bn > D:
+            continue
+        rows = torch.randperm(D)[:Bn]
+        bt = space[rows].clone()
+        for A in ([0], list(range(n))[-1:], list(range(n))):
+            got = SWAP(A).apply(st, bt.clone())
+            prev = torch.roll(bt, 1, 0)
+            a1, a2 = swap(bt.clone(), prev.clone(), A)
+            w1 = st.importance_sampling_weight(a1, bt)
+            w2 = st.importance_sampling_weight(a2, prev)
+            want = w1[0] * w2[0] - w1[1] * w2[1]
+            if not torch.allclose(got, want, rtol=1e-9, atol=1e-12):
+                fails.append(("batch of %d: row i is not Re[w(s'_i,s_i) w(s'_(i-1),s_(i-1))]" % Bn, A))
     # cyclic pairing: every sample once in each replica role -> permutation-covariance of the batch result
     b = space[torch.randperm(D)][: min(D, 4)].clone()
     v = SWAP([0]).apply(st, b)
